@@ -111,6 +111,19 @@ CLAIMED = {
                             "probing oracle only (tests, not theorems)."),
         technique="Lean 4 proof over symbolically traced update + limit (per class) + linear probing oracle",
         design="5/C04"),
+    "C12": dict(
+        text=("Lean theorems: the traced constant (laminar/turbulent) Cheng-Todreas split conserves mass for ALL ratio "
+              "constants and is positive for positive inputs; one successive-approximation update conserves mass and "
+              "equalises the pressure gradients t_i x_i^2 of the three subchannel types; over the reals with Real.rpow, the "
+              "ratio constant the code uses equalises the friction pressure gradient Cf_i x_i^(2-m) De_i^-(1+m) of two "
+              "types for every exponent m < 2.  All 120 accepted correlation combinations are evaluated on real bundles "
+              "at seven Reynolds numbers (10 .. 1e6): evaluability, positivity/finiteness, mass conservation."),
+        note=COMMON_NOTE + ("T1 trace of _calc_constant_flowsplits; the iteration update is a hand model of the last lines "
+                            "of _iterate validated by the oracle.  NOV/MIT/SE2 splits and the friction/mixing correlations "
+                            "are covered by the oracle only.  Seven genuine defects (combinations that cannot be evaluated, "
+                            "NaN friction factor) are recorded in known_findings.json by call site."),
+        technique="Lean 4 proof (field_simp; Real.rpow algebra) over traced split + hand update model + exhaustive combination oracle",
+        design="5/C12"),
     "C14": dict(
         text=("Lean theorems over any ordered field about the accumulation model: friction and gravity parts equal the "
               "per-length coefficient times the core length for EVERY plane list (step-size independence, closed forms "
